@@ -28,7 +28,7 @@ type c20Case struct {
 }
 
 var c20Steps = []string{"login-ok", "login-bad", "visit-full", "visit-none", "logout", "recover", "register", "otp-login", "remember", "otp-add", "login-ok",
-	"recover-bad", "confirm-bad", "login-unknown", "get-pages", "register-dup", "recover-unknown"}
+	"recover-bad", "confirm-bad", "login-unknown", "get-pages", "register-dup", "recover-unknown", "recover-refused"}
 
 type c20Client struct {
 	w    *harness.World
@@ -157,6 +157,9 @@ func (c *c20Client) run(script []string) {
 			}
 		case "login-unknown":
 			c.do(name, "POST", P("/login"), map[string]string{"email": fmt.Sprintf("ghost%d@x.io", c.i), "password": "wrong-Pass1!"}, nil)
+		case "recover-refused":
+			// the client's second account lives in a domain whose mail server refuses it: the mailer's error path
+			c.do(name, "POST", P("/recover"), map[string]string{"email": fmt.Sprintf("bounce%d@refuse.x.io", c.i)}, nil)
 		case "recover-unknown":
 			c.do(name, "POST", P("/recover"), map[string]string{"email": fmt.Sprintf("ghost%d@x.io", c.i)}, nil)
 		case "get-pages":
@@ -315,6 +318,9 @@ func c20Gen(t *rapid.T) c20Case {
 			sc = append(sc, pick(t, "step", c20Steps...))
 		}
 		c.Scripts = append(c.Scripts, sc)
+	}
+	for i := 0; i < k; i++ {
+		c.Cfg.Accounts = append(c.Cfg.Accounts, harness.AccountSpec{PID: fmt.Sprintf("bounce%d@refuse.x.io", i), Password: goodPWs[i%4]})
 	}
 	c.Procs = pick(t, "procs", 2, 4, 16)
 	c.Perturb = rapid.Uint64Range(0, 1<<20).Draw(t, "perturb")
